@@ -200,7 +200,10 @@ def build_harness(name):
     """Build harness/cmd/<name> (with -tags verif, against /repo's working tree) into out/bin/<name>."""
     os.makedirs(BIN_DIR, exist_ok=True)
     t0 = time.time()
-    p = subprocess.run(["go", "build", "-tags", "verif", "-o", os.path.join(BIN_DIR, name), "./cmd/" + name],
+    cover = []
+    if os.environ.get("VERIF_COVER"):   # maintenance aid: statement coverage of /repo under the checks (GOCOVERDIR = $VERIF_COVER)
+        cover = ["-cover", "-coverpkg=github.com/samaritan-proxy/samaritan/..."]
+    p = subprocess.run(["go", "build", "-tags", "verif"] + cover + ["-o", os.path.join(BIN_DIR, name), "./cmd/" + name],
                        cwd=HARNESS_DIR, env=goenv(), stdout=subprocess.PIPE, stderr=subprocess.STDOUT,
                        text=True)
     if p.returncode != 0:
@@ -212,6 +215,9 @@ def run_harness(name, args, timeout=600, stdin=None, env=None):
     """Run the harness binary out/bin/<name>; returns (returncode, stdout, stderr)."""
     e = goenv()
     e.update(env or {})
+    if os.environ.get("VERIF_COVER"):
+        os.makedirs(os.environ["VERIF_COVER"], exist_ok=True)
+        e["GOCOVERDIR"] = os.environ["VERIF_COVER"]
     try:
         p = subprocess.run([os.path.join(BIN_DIR, name)] + list(args), stdout=subprocess.PIPE, stderr=subprocess.PIPE,
                            timeout=timeout, text=True, errors="replace", input=stdin, env=e, cwd=ROOT)
